@@ -52,7 +52,7 @@ func newObserver() *observer {
 		o.trace = append(o.trace, strings.Join(parts, "|"))
 		return otto.UndefinedValue()
 	})
-	harness.Arm(o.vm, 600_000)
+	harness.ArmCPU(o.vm, 600_000, 20) // 20 s of CPU per route: slower than that is given up (discard)
 	return o
 }
 
@@ -329,8 +329,8 @@ var excludeByFlag = map[string]string{
 }
 
 var programs = harness.Register(&harness.Facet[progCase]{
-	Name: "programs",
-	Rule: "rapid: closed terminating ES5 programs from the semantic generator (lib/prog: hoisting, closures, this under plain/method/call/apply/bind/new, constructors returning objects or primitives, prototype chains and instanceof, arguments aliasing, direct and indirect eval of generated sub-programs, with, all loop forms with labelled break/continue, switch with default in any position and fall-through, try/catch/finally with every completion type, accessors in literals, delete, typeof of unresolvable names, compound assignment and ++/-- on identifiers and members); each is evaluated by the ES5 reference evaluator and by otto along six submission routes; non-trivial = the reference execution made ≥1 script function call and hit ≥1 of {abrupt completion through finally, with lookup, eval, call/apply/bind, new, accessor, labelled break, instanceof, catch, method call, delete, typeof unresolvable, for-in}; distinct by program tree",
+	Name:     "programs",
+	Rule:     "rapid: closed terminating ES5 programs from the semantic generator (lib/prog: hoisting, closures, this under plain/method/call/apply/bind/new, constructors returning objects or primitives, prototype chains and instanceof, arguments aliasing, direct and indirect eval of generated sub-programs, with, all loop forms with labelled break/continue, switch with default in any position and fall-through, try/catch/finally with every completion type, accessors in literals, delete, typeof of unresolvable names, compound assignment and ++/-- on identifiers and members); each is evaluated by the ES5 reference evaluator and by otto along six submission routes; non-trivial = the reference execution made ≥1 script function call and hit ≥1 of {abrupt completion through finally, with lookup, eval, call/apply/bind, new, accessor, labelled break, instanceof, catch, method call, delete, typeof unresolvable, for-in}; distinct by program tree",
 	Quick:    6000,
 	Thorough: 25000,
 	Gen:      func(t *rapid.T) progCase { return progCase{Prog: prog.GenProgram(t)} },
